@@ -10,6 +10,7 @@ from .. import env
 from ..prop import Prop
 from ..ref import clock
 
+FIXED_EPOCHS = [1_700_000_000 + k * 7_654_321 % 63_072_000 for k in range(96)]
 MALFORMED = ["", "2100", "21", "ab:cd", "x1:00", "12:y", "24:00", "25:10", "99:99", "12:60", "12:75",
              "-1:30", "12:-5", ":", ":30", "12:", "noon", "1200:", "12;30", "１２:３０"]
 
@@ -37,7 +38,7 @@ class C11(Prop):
     id = "C11"
     level = "exploration"
     technique = "real encoder/decoder driven under a virtual clock and switched host zone; zoneinfo oracle over all 1440 minutes per (zone, instant)"
-    rule = ("case = (zone, virtual now); all 1440 HH:MM are encoded and decoded back under it, plus 64 arbitrary instants decoded, "
+    rule = ("case = (zone, virtual now); all 1440 HH:MM are encoded and decoded back under it, plus 64 arbitrary instants and 96 fixed instants (the same in every case, so each is decoded under many zones in one process) decoded, "
             "plus 20 malformed strings; distinct = (zone, local date, utc offset pattern of that date); non-trivial = case whose "
             "local date differs from the UTC date, or lies on/next to a UTC-offset transition, or zone offset is not a whole hour")
     level_text = ("Held-on-observed over 14 zones (+14..-11, half/quarter-hour, both DST hemispheres) x dates on and around every "
@@ -115,6 +116,39 @@ class C11(Prop):
             acc.count("minutes_in_overlap", folds)
             # decoding arbitrary instants (not only today's)
             r = env.rng("C11", "dec", zone, now)
+            # the same 96 instants decoded under this zone and, right after, under another one (the host zone may change
+            # while the process lives): a result remembered from the first zone is wrong in the second
+            z2 = env.ZONES[(env.ZONES.index(zone) + 1 + now % (len(env.ZONES) - 1)) % len(env.ZONES)]
+            for zz in (zone, z2, zone):
+                clock.set_zone(zz)
+                for e in FIXED_EPOCHS:
+                    h = e.to_bytes(4, "little").hex()
+                    acc.ev()
+                    try:
+                        got = dec(h.encode())
+                    except Exception as exc:
+                        acc.violation("decode-raised", f"decode({h}) raised {type(exc).__name__}", {"hex": h})
+                        continue
+                    if got != clock.hhmm_of(zz, e):
+                        acc.violation("decode-wrong-time:after-zone-change", f"epoch {e} in {zz} (right after decoding it in another zone) decoded {got}, "
+                                      f"want {clock.hhmm_of(zz, e)}", {"epoch": e, "got": got, "zone": zz})
+                # and the encoder: the same strings right after the zone changed
+                if zz == z2:
+                    t2 = clock.local(z2, now).date()
+                    for m in (0, 61, 725, 1439):
+                        want2 = clock.epochs_of(z2, t2, m // 60, m % 60)
+                        if not want2:
+                            continue
+                        acc.ev()
+                        try:
+                            g2 = int.from_bytes(bytes.fromhex(enc(f"{m // 60:02d}:{m % 60:02d}")), "little")
+                        except Exception as exc:
+                            acc.violation("encode-raised", f"{m} in {z2} raised {type(exc).__name__}", {})
+                            continue
+                        if g2 not in want2:
+                            acc.violation("encode-wrong-epoch:after-zone-change", f"{m // 60:02d}:{m % 60:02d} in {z2} on {t2} (right after encoding it in "
+                                          f"{zone}) encoded as {g2}, want one of {want2}", {"zone": z2})
+            acc.count("zone_switches_inside_a_case", 2)
             for _ in range(64):
                 e = r.randrange(0, 2 ** 32) if r.random() < 0.2 else now + r.randrange(-400 * 86400, 400 * 86400)
                 e = max(0, min(2 ** 32 - 1, e))
